@@ -20,6 +20,10 @@ decides an obligation:
   exposed the shared counter); `outside the proved class`: neither; `not
   understood`: the reader could not read the function (a warning, counted in
   the evidence, never a violation: a harmless rewrite must not alarm);
+* the identifiers that are themselves the key of a suffixed `x` under the format
+  read (`x_v0`, `x_v10` .. for `"{}_v{}"`) are handed to the generator
+  (`lookalikes`), and the bytes of the literal join the alphabet of the
+  collision search: a literal that starts with an identifier byte is `colliding`;
 * it counts the accesses to the version maps and how many visibly go through
   `version_key` (information only).
 """
@@ -370,16 +374,45 @@ def render(ps, n, s):
     return b"".join(n if p[0] == "name" else s if p[0] == "suffix" else p[1] for p in ps)
 
 
+def lookalikes(some, bases=("x",), suffixes=("0", "1", "2", "10", "11", "12")):
+    """Identifiers that ARE the key of a suffixed name under the format `some`
+    (x + literal + 0 ..): fed into the name pools of the generator, so that a
+    shared version counter is exposed by into_ssa whatever the literal is."""
+    out = []
+    for n in bases:
+        for sfx in suffixes:
+            try:
+                k = render(some, n.encode(), sfx.encode()).decode()
+            except UnicodeDecodeError:
+                continue
+            if re.match(r"^[$_]*[a-zA-Z][a-zA-Z$_0-9]*$", k) and k != n and k not in out:
+                out.append(k)
+    return out
+
+
 def collision(some, none):
     """Two different (name, suffix) pairs with the same key, searched over identifiers
     made of x _ $ 0 1 (up to 4 bytes, starting like an identifier) and suffixes 0..11."""
     import itertools
+    ident = re.compile(rb"^[$_]*[a-zA-Z][a-zA-Z$_0-9]*$")
+    # the alphabet: x _ $ 0 1 and the bytes of the literals of the format itself (a
+    # separator made of identifier letters, `_v`, collides only with names that contain it)
+    alpha = bytearray(b"x_$01")
+    for p in some + none:
+        if p[0] == "lit":
+            for b in p[1]:
+                if b not in alpha and len(alpha) < 9:
+                    alpha.append(b)
     names = []
     for l in range(1, 5):
-        for t in itertools.product(b"x_$01", repeat=l):
+        for t in itertools.product(bytes(alpha), repeat=l):
             w = bytes(t)
-            if re.match(rb"^[$_]*[a-zA-Z][a-zA-Z$_0-9]*$", w):
+            if ident.match(w):
                 names.append(w)
+    # and, whatever their length, the keys of suffixed names that are identifiers themselves
+    for w in lookalikes(some):
+        if w.encode() not in names:
+            names.append(w.encode())
     seen = {}
     for n in names:
         for s in [None] + [str(i).encode() for i in range(12)]:
@@ -410,6 +443,9 @@ def lint(repo, decide):
             info["some"], info["none"] = [show_piece(p) for p in some], [show_piece(p) for p in none]
         return info
     info["some"], info["none"] = [show_piece(p) for p in some], [show_piece(p) for p in none]
+    info["lookalikes_fed_to_the_generator"] = lookalikes(some)
+    info["pieces"] = {"some": [[p[0], p[1].hex() if p[0] == "lit" else None] for p in some],
+                      "none": [[p[0], p[1].hex() if p[0] == "lit" else None] for p in none]}
     ok = decide(" ".join(info["some"]) + " ; " + " ".join(info["none"]))
     col = collision(some, none)
     if col is not None:
